@@ -5,6 +5,7 @@ import OnetVerif.Proofs.C20IPv4
 import OnetVerif.Shapes
 import OnetVerif.Gen.C20
 import OnetVerif.Proofs.C20Gen
+import OnetVerif.Proofs.C20Private
 /-! Property C20 — address parsing is total and self-consistent.
 
 The property theorems, the negation witness for the code before the repair and non-vacuity
@@ -218,6 +219,48 @@ theorem c20_public (lk : Str → Option (List Str)) (a : Str) (h : isPublic lk a
     · simp [hp] at h
       exact ⟨h, s, rfl, hp⟩
     · simp [hp] at h
+
+/-- **`Public` on a dotted-quad host agrees with the numeric private ranges**: for a valid address whose host is the
+IPv4 literal `o1.o2.o3.o4` (canonical octets), `Public` is false exactly for 127/8, 10/8, 172.16/12, 192.168/16 and
+169.254/16 — the textual patterns of the regular expression mean these ranges — whatever the DNS answers. -/
+theorem c20_public_ipv4 (lk : Str → Option (List Str)) (a t na p o1 o2 o3 o4 : Str) (hv : valid a = true)
+    (hp : Parse a t na (o1 ++ 46 :: (o2 ++ 46 :: (o3 ++ 46 :: o4))) p)
+    (h1 : Octet o1) (h2 : Octet o2) (h3 : Octet o3) (h4 : Octet o4) :
+    (isPublic lk a = some false ↔ private4 (decVal o1) (decVal o2)) ∧
+    (isPublic lk a = some true ↔ ¬ private4 (decVal o1) (decVal o2)) := by
+  have hip : parseIP (o1 ++ 46 :: (o2 ++ 46 :: (o3 ++ 46 :: o4))) = true :=
+    (parseIP_iff _).mpr (Or.inl ⟨o1, o2, o3, o4, h1, h2, h3, h4, rfl⟩)
+  have hr := (c20_resolve_ip_independent lk lk a t na _ p hv hp hip).1
+  have hn := c20_resolved_address lk a t na _ p _ hv hp hr
+  have hnc : (o1 ++ 46 :: (o2 ++ 46 :: (o3 ++ 46 :: o4))).contains 58 = false := by
+    have d : ∀ f, Octet f → 58 ∉ f := by
+      intro f hf m
+      have := hf.1.2 58 m
+      simp [isDigit] at this
+    have := d o1 h1; have := d o2 h2; have := d o3 h3; have := d o4 h4
+    simp [*]
+  have hj : joinHostPort (o1 ++ 46 :: (o2 ++ 46 :: (o3 ++ 46 :: o4))) p
+      = o1 ++ 46 :: (o2 ++ 46 :: (o3 ++ 46 :: o4 ++ 58 :: p)) := by
+    unfold joinHostPort
+    rw [hnc]
+    simp
+  have ht := privateRe_text o1 o2 (o3 ++ 46 :: o4 ++ 58 :: p) h1 h2
+  have hi := privateText_iff o1 o2 h1 h2
+  unfold isPublic
+  rw [hn, hj]
+  dsimp only
+  rw [ht]
+  cases hpt : privateText o1 o2
+  · have : ¬ private4 (decVal o1) (decVal o2) := by
+      intro h; rw [← hi, hpt] at h; cases h
+    simp [hv, this]
+  · have : private4 (decVal o1) (decVal o2) := hi.mp hpt
+    simp [this]
+
+/-- `tcp://172.31.0.1:1` is private, `tcp://172.32.0.1:1` public -/
+example : isPublic (fun _ => none) [116, 99, 112, 58, 47, 47, 49, 55, 50, 46, 51, 49, 46, 48, 46, 49, 58, 49] = some false ∧
+    isPublic (fun _ => none) [116, 99, 112, 58, 47, 47, 49, 55, 50, 46, 51, 50, 46, 48, 46, 49, 58, 49] = some true := by
+  decide
 
 /-! ### listen address -/
 
